@@ -111,6 +111,8 @@ package cpuallocator
 //@   ensures forall x int :: x in sysCPUs(self) ==> idset.ID(x) in result
 //@ iface github.com/containers/nri-plugins/pkg/sysfs.System.PackageIDs
 //@   ensures newobj(result) && distinctIds(result)
+//@   # (sysfs sorts the list it returns)
+//@   ensures forall i int, j int :: 0 <= i && i < j && j < len(result) ==> result[i] < result[j]
 
 // what every allocation stage preserves: result/from partition the same set, cnt + |result| is constant
 //@ pure stagePost(a *allocatorHelper) bool = a.result.Union(a.from).Equals(old(a.result.Union(a.from))) && a.result.Intersection(a.from).IsEmpty() &&
